@@ -17,6 +17,7 @@ CLASSES = [
     {"name": "static", "shift": "zero", "lapse": "varying", "metric": "non-diagonal", "K": "zero"},
     {"name": "const-shift", "shift": "constant", "lapse": "const", "metric": "non-diagonal", "K": "nonzero"},
     {"name": "badly-scaled", "shift": "varying", "lapse": "time-dependent", "metric": "scaled", "K": "nonzero"},
+    {"name": "z-shift", "shift": "z-only", "lapse": "time-dependent", "metric": "non-diagonal", "K": "nonzero"},
     {"name": "minkowski-like", "shift": "zero", "lapse": "one", "metric": "identity", "K": "zero"},
 ]
 
@@ -68,7 +69,7 @@ def make_case(cls, seed):
                      tdep=lapse == "time-dependent")
     beta = []
     for i in range(3):
-        if cls["shift"] == "zero":
+        if cls["shift"] == "zero" or (cls["shift"] == "z-only" and i < 2):
             beta.append(J.Jet())
         elif cls["shift"] == "constant":
             beta.append(J.Jet({(0, 0, 0, 0): F(rng.choice([-2, -1, 1, 2]), 8)}))
